@@ -103,8 +103,10 @@ class _Match(Generic[AnyStr]):
                         if star:
                             at_end = m.end(i) >= end
                             parts = split.split(star.strip(strip))
-                            # Each capture starts at its own place in the path.
-                            base = os.path.join(root, filename[:m.start(i)])
+                            # Each capture starts at its own place in the path. A capture that begins with the
+                            # separator of an absolute path (`/**/x`) starts at the file system root, not at `root`.
+                            lead = star[:1] if star[:1] in strip else star[:0]
+                            base = os.path.join(root, filename[:m.start(i)] + lead)
                             last_part = len(parts)
                             for j, part in enumerate(parts, 1):
                                 base = os.path.join(base, part)
